@@ -548,8 +548,13 @@ def chswChannelWith (hiddenFirst : Bool) (ch : Channel) : Channel :=
 
 def chswChannel (ch : Channel) : Channel := chswChannelWith chswHiddenResetFirst ch
 
+/-- `cc->curr_chan[0] = 0; cc->curr_chan[1] = 0;` in `vbi_caption_channel_switched` - present on a tree with the repair of
+    finding chsw-curr-chan (`chswResetsCurr`, generated), otherwise the selectors survive the channel switch -/
+def St.chswCurr (s : St) : St :=
+  if chswResetsCurr then { s with currChan := 0, currChan2 := 0 } else s
+
 def St.chswWith (hiddenFirst : Bool) (s : St) : St :=
-  { s with chans := s.chans.map (chswChannelWith hiddenFirst), xds := false }
+  { s.chswCurr with chans := s.chans.map (chswChannelWith hiddenFirst), xds := false }
 
 def St.chsw (s : St) : St := s.chswWith chswHiddenResetFirst
 
